@@ -110,20 +110,42 @@ def txCountHead (guard : Bool) (raw : Bytes) : Except String (Nat × Bytes) :=
   | none => .error "bad-blk-length"                    -- vlenWire answers 0, 0
   | some (cnt, rest) => if guard && cnt == 0 then .error "bad-blk-length" else .ok (cnt, rest)
 
+/-- outcome of the transaction loop -/
+inductive Loop
+  | done                    -- every transaction decoded
+  | failed                  -- `NewTx failed` (error, bl.Txs cut)
+  | panic (site : String)   -- a slice of bl.Raw out of range
+  deriving DecidableEq, Repr
+
 /-- the transaction loop: `for i := 0; i < bl.TxCount; i++ { tx, n := NewTx(bl.Raw[offs:]); if tx == nil || n == 0
-    { error; bl.Txs = bl.Txs[:i]; break } … offs += n }`; `newTx` answers the size (`none`: nil). -/
-def txLoop (newTx : Bytes → Option Nat) : Nat → Bytes → Bool
-  | 0, _ => true
+    { error; bl.Txs = bl.Txs[:i]; break }; tx.Raw = bl.Raw[offs : offs+n] … offs += n }`; `newTx` answers the size
+    (`none`: nil). The slice `bl.Raw[offs:offs+n]` panics when the decoder reports more bytes than it was given. -/
+def txLoop (newTx : Bytes → Option Nat) : Nat → Bytes → Loop
+  | 0, _ => .done
   | k+1, rest =>
     match newTx rest with
-    | none => false
-    | some n => if n == 0 then false else txLoop newTx k (rest.drop n)
+    | none => .failed
+    | some n =>
+      if n == 0 then .failed
+      else if n > rest.length then .panic "BuildTxListExt: bl.Raw[offs:offs+n]"
+      else txLoop newTx k (rest.drop n)
 
-/-- BuildTxListExt: number of entries of bl.Txs on success -/
-def buildTxList (guard : Bool) (newTx : Bytes → Option Nat) (raw : Bytes) : Except String Nat :=
+/-- outcome of BuildTxListExt -/
+inductive Built
+  | ok (n : Nat)            -- number of entries of bl.Txs
+  | error (why : String)
+  | panic (site : String)
+  deriving DecidableEq, Repr
+
+/-- BuildTxListExt, entered with bl.TxCount == 0 and bl.Txs == nil (see `postCheck`) -/
+def buildTxList (guard : Bool) (newTx : Bytes → Option Nat) (raw : Bytes) : Built :=
   match txCountHead guard raw with
   | .error e => .error e
-  | .ok (cnt, rest) => if txLoop newTx cnt rest then .ok cnt else .error "NewTx failed"
+  | .ok (cnt, rest) =>
+    match txLoop newTx cnt rest with
+    | .done => .ok cnt
+    | .failed => .error "NewTx failed"
+    | .panic s => .panic s
 
 /-- `res = mtr[len(mtr)-1][:]` at the end of btc.CalcMerkle (GetMerkle hands it len(bl.Txs) hashes; the loop
     before it runs only for more than one): `none` = index out of range [-1] -/
@@ -139,14 +161,19 @@ def PC.isPanic : PC → Bool
   | .panic _ => true
   | _ => false
 
-/-- the front of chain.PostCheckBlock for a block whose transaction list has not been built (bl.Txs == nil:
-    every failure path of the three callers resets it): size test, BuildTxList, the coinbase tests a
-    TRUSTED block skips (`cbOk`: first is a coinbase with the right height, no second one), the merkle root
-    (`merkleOk`: not mutated and equal to the header's). -/
+/-- the front of chain.PostCheckBlock. ENTRY CONDITION (not checked here, stated in Props.C18.postcheck_total): the
+    block object's transaction list has not been built - bl.Txs == nil and bl.TxCount == 0, the state in which
+    btc.NewBlockHeader leaves it and to which each of the three callers' failure paths puts it back (`b2g.Block.Txs =
+    nil` after UpdateContent; the `set:` facts of netBlockReceived / ProcessCmpctBlock / ProcessBlockTxn).
+    Then: size test, BuildTxList, the coinbase tests a TRUSTED block skips (`cbOk`: first is a coinbase with the
+    right height, no second one), the merkle root (`merkleOk`: not mutated and equal to the header's). The model
+    mirrors the sequential (`!dohash`) loop of BuildTxListExt; PostCheckBlock runs the worker variant (`dohash`),
+    whose decoding loop has the same NewTx / slice / offs statements (the workers only hash; C09 models them). -/
 def postCheck (guard : Bool) (newTx : Bytes → Option Nat) (trusted : Bool) (raw : Bytes) (cbOk merkleOk : Bool) : PC :=
   if raw.length < 81 then .err "bad-blk-length" else
   match buildTxList guard newTx raw with
   | .error e => .err e
+  | .panic s => .panic s
   | .ok n =>
     if !trusted && (n == 0 || !cbOk) then .err "bad-cb-missing" else
     match merkleLast n with
